@@ -61,6 +61,7 @@ def gen_case(rng, cid):
         extra = {"kind": kind, "space": rng.random() < 0.5, "also_comodo": True}
     extra["user_kind"] = rng.choice(["same", "disjoint", "subset"])
     extra["mixed_space"] = rng.random() < 0.3
+    extra["entry_order"] = rng.random() < 0.4
     extra["topology_as_coord"] = rng.random() < 0.25
     extra["stray_axis_coords"] = rng.random() < 0.25
     return {"id": cid, "ev": "Autoparse", "desc": desc, "user_coords": rng.random() < 0.12, "extra": extra,
@@ -126,7 +127,10 @@ def build(case):
         horiz = sg if kind != "2dv" else sg[:2]
         attrs["node_dimensions"] = " ".join(a["node"] for a in horiz)
         key = "volume_dimensions" if kind == "3d" else "face_dimensions"
-        attrs[key] = " ".join(entry(a) for a in horiz)
+        ents = [entry(a) for a in horiz]
+        if case["extra"].get("entry_order"):
+            rng.shuffle(ents)          # the entries name their node dimension themselves: their order is free
+        attrs[key] = " ".join(ents)
         if kind == "2dv":
             attrs["vertical_dimensions"] = entry(sg[2])
         ds["grid_topology"] = xr.DataArray(0, attrs=attrs)
